@@ -52,6 +52,7 @@ var links = []struct{ uri, params string }{
 	{"https://a.example/x", ""},
 	{"https://a.example/x", "id=1"},
 	{"https://b.example/y?z=1", ""},
+	{"https://c.example/doc;v=2?q=1", "id=2"}, // ';' is legal in a URI and is also OSC 8's field separator
 }
 
 // Style draws a style over all classes.
